@@ -156,7 +156,9 @@ Worker ==
                /\ UNCHANGED <<cfg, f, fsq, now, mon>>
           ELSE WorkerEnd(Ev.inc, Ev.how)
   \/ /\ IsA("obs.w_kill") /\ Adv /\ KeepPre /\ E0 /\ Ev.inc \in Incs
-     /\ IF act[Ev.inc].st = "alive" THEN WorkerKill(Ev.inc) ELSE UNCHANGED vars
+     /\ IF act[Ev.inc].st \in {"alive", "closing"} THEN WorkerKill(Ev.inc) ELSE UNCHANGED vars
+  \/ IsA("obs.w_stop") /\ Adv /\ KeepPre /\ E0 /\ Ev.inc \in Incs /\ WorkerStop(Ev.inc)
+  \/ IsA("obs.w_closing") /\ Adv /\ KeepPre /\ E0 /\ Ev.inc \in Incs /\ WorkerClosing(Ev.inc)
   \/ IsA("obs.w_dead") /\ Adv /\ KeepPre /\ E0 /\ Ev.inc \in Incs /\ MayDie(Ev.inc) /\ WorkerDead(Ev.inc)
   \/ IsA("obs.f_dead") /\ Adv /\ KeepPre /\ E0 /\ f.up = "dead" /\ UNCHANGED vars
 
